@@ -1,6 +1,7 @@
 /-
-Soundness of `handle_sum` of the factorisation model: the result dictionary has the union of the
-keys and `Σ result = Σ fac0 + Σ fac1` (an argument-free summand contributes nothing — DESIGN F10).
+Soundness of `handle_sum` of the factorisation model: both operands depend on arguments (else
+`sumArgFree` is raised), the result dictionary has the union of the keys and
+`Σ result = Σ fac0 + Σ fac1`.
 -/
 import FfcxProofs.Lemmas.FactorizeDict
 
@@ -46,10 +47,17 @@ theorem handleSum_sound (hρ : LawfulEnv ρ) (look : Nat → R) (Q : Nat → Pro
     (hn0 : fac0.keys.Nodup) (hn1 : fac1.keys.Nodup)
     (hq0 : KeysIn Q fac0) (hq1 : KeysIn Q fac1)
     (h : handleSum F fac0 fac1 = .ok (F', d')) :
+    fac0 ≠ [] ∧ fac1 ≠ [] ∧
     Ext F F' ∧ Closed F' ∧ DictOK F' d' ∧ d'.keys.Nodup ∧ KeysIn Q d' ∧
     (fac0 ≠ [] ∨ fac1 ≠ [] → d' ≠ []) ∧
     factSum ρ F' look d' = factSum ρ F look fac0 + factSum ρ F look fac1 := by
   unfold handleSum at h
+  split at h
+  · cases h
+  rename_i hboth
+  have hne0 : fac0 ≠ [] := by intro h0; subst h0; simp at hboth
+  have hne1 : fac1 ≠ [] := by intro h1; subst h1; simp at hboth
+  refine ⟨hne0, hne1, ?_⟩
   simp only at h
   generalize hak : sortKeys (dedup (fac0.keys ++ fac1.keys)) = argkeys at h
   have hnd : argkeys.Nodup := hak ▸ unionKeys_nodup fac0 fac1
